@@ -78,6 +78,11 @@ type CfgGen struct {
 	Watches []Watch
 	Auditor *audgen.Member // optional: an auditor mentioning a numeric signal
 	AudVar  [2]string
+	// OnlyHelps lists audience members marked `<name> only helps` (no plot;
+	// they still watch, so they still get their data points).
+	OnlyHelps []string
+	// OnlyHelpsFirst: the clause comes before the member's other clauses.
+	OnlyHelpsFirst map[string]bool
 	// Sentinel adds to every role a signal `zend` matching the line THE-END,
 	// watched by o9 (end-to-end plays: tells that an actor's lines were all read).
 	Sentinel bool
@@ -112,6 +117,11 @@ func (c *CfgGen) Text(spot map[string]string, script string) string {
 	b.WriteString("end\n")
 	b.WriteString(script)
 	b.WriteString("audience\n")
+	for _, o := range c.OnlyHelps {
+		if c.OnlyHelpsFirst[o] {
+			b.WriteString("  " + o + " only helps\n")
+		}
+	}
 	for _, w := range c.Watches {
 		b.WriteString("  " + w.Observer + " watches " + w.Target + " " + w.Sig + "\n")
 	}
@@ -123,6 +133,11 @@ func (c *CfgGen) Text(spot map[string]string, script string) string {
 	if c.Sentinel {
 		for _, r := range c.Roles {
 			b.WriteString("  o9 watches every " + r.Name + " zend\n")
+		}
+	}
+	for _, o := range c.OnlyHelps {
+		if !c.OnlyHelpsFirst[o] {
+			b.WriteString("  " + o + " only helps\n")
 		}
 	}
 	b.WriteString("end\n")
@@ -171,6 +186,9 @@ func (c *CfgGen) Watchers(actor, sig string) []string {
 type Gen struct {
 	R          *rand.Rand
 	Modalities []string
+	// knobs for the end-to-end plays
+	MinActors  int // at least this many actors in the cast
+	ForceRoles int // 0: 1-2 roles at random
 }
 
 func (g *Gen) pick(xs []string) string { return xs[g.R.Intn(len(xs))] }
@@ -179,6 +197,9 @@ func (g *Gen) pick(xs []string) string { return xs[g.R.Intn(len(xs))] }
 func (g *Gen) Config() *CfgGen {
 	c := &CfgGen{}
 	nroles := 1 + g.R.Intn(2)
+	if g.ForceRoles > 0 {
+		nroles = g.ForceRoles
+	}
 	actorNames := []string{"x", "y", "z", "w"}
 	na := 0
 	for ri := 0; ri < nroles; ri++ {
@@ -203,6 +224,10 @@ func (g *Gen) Config() *CfgGen {
 			na++
 		}
 		c.Roles = append(c.Roles, r)
+	}
+	for ri := 0; na < g.MinActors && na < len(actorNames); ri = (ri + 1) % len(c.Roles) {
+		c.Roles[ri].Actors = append(c.Roles[ri].Actors, actorNames[na])
+		na++
 	}
 	// observers: an observer watches events only or numbers only (the parser
 	// rejects a mix).
@@ -253,6 +278,22 @@ func (g *Gen) Config() *CfgGen {
 			c.Auditor = m
 			c.AudVar = v
 		}
+	}
+	// `only helps`: plotting is switched off for the member, nothing else
+	c.OnlyHelpsFirst = map[string]bool{}
+	members := map[string]bool{}
+	for _, w := range c.Watches {
+		members[w.Observer] = true
+	}
+	for _, o := range []string{"o1", "o2", "o3"} {
+		if members[o] && g.R.Intn(3) == 0 {
+			c.OnlyHelps = append(c.OnlyHelps, o)
+			c.OnlyHelpsFirst[o] = g.R.Intn(2) == 0
+		}
+	}
+	if c.Auditor != nil && g.R.Intn(2) == 0 {
+		c.OnlyHelps = append(c.OnlyHelps, c.Auditor.Name)
+		c.OnlyHelpsFirst[c.Auditor.Name] = g.R.Intn(2) == 0
 	}
 	return c
 }
